@@ -154,13 +154,16 @@ TEXT = {
              "deliver_exactly_once_at_addressee (hop-by-hop walk over arbitrary networks with a route), addressee_unique (IDs that differ "
              "only in letter case are different nodes), stream_link_roundtrip (encode, frame, any chunking, deframe, decode = identity on "
              "every sequence of datagrams), local_send_intact (a datagram for a socket of the same node carries its own copy of the "
-             "payload, whatever the sender does with its buffer afterwards). Tie: regenerated layout/"
+             "payload, whatever the sender does with its buffer afterwards), concurrent_sends_independent / concurrent_sends_safe_at_every_moment / "
+             "each_send_ends_once (any number of datagrams in flight, every schedule of their single steps: each send ends exactly once, at the "
+             "node and with the outcome it has when followed alone; a draining schedule exists for every burst). Tie: regenerated layout/"
              "framing facts + byte-exact differential runs of translateData*, the framer and handleMessageData (single node and multi-node pump), "
              "and real nodes in a chain (link engine): payloads of 0 … MTU bytes (MTU-37 … MTU included) sent across real links between nodes "
              "whose IDs may differ only in case, every node listening on the service — received exactly once, at the addressee, unaltered; "
              "bursts of 150000 datagrams to a listener on the same node from a sender that reuses its buffer after every WriteTo.",
-        note=BASE_NOTE + "Assumed: highwayhash collision-free on the names in play; Go channel/map semantics. Concurrent senders are "
-             "covered by the model's independence of packets (each send is its own walk), not by a schedule theorem: partial."),
+        note=BASE_NOTE + "Assumed: highwayhash collision-free on the names in play; Go channel/map semantics. Concurrent senders: the schedule "
+             "theorem takes a step of one datagram as atomic with respect to the node tables it reads (routing table and listener registry "
+             "are read under their locks: facts dispatch_key, send_local_copy); the link engine sends from several goroutines at once."),
     "C11": dict(
         text="Theorems established_admissible, established_only_by_admit, rejected_leaves_nothing, one_per_id (connection table Nodup "
              "for every order of simultaneous handshakes, the check-and-insert being atomic), post_establishment_checks (identity change, "
@@ -185,7 +188,7 @@ TEXT = {
              "interleaving and bag delivery; simplified setting, named partial). Tie: regenerated facts (relax test, re-enqueue, "
              "prev walk, aging order) + differential runs of updateRoutingTable on random graphs (costs equal, each hop on a least-cost "
              "path), of handleRoutingUpdate histories and of protoReader.",
-        note=BASE_NOTE + "Not proved: termination of the label-correcting loop; the protocol theorem for epochs/notices/link events; the "
+        note=BASE_NOTE + "Not proved: the protocol theorem for epochs/notices/link events inside one round (proved between quiescent moments); the "
              "real-time bound. Float costs modelled as naturals."),
     "C06": dict(
         text="Theorems replay_is_noop, stale_is_noop, no_self_accept / self_origin_never_accepted, relay_excludes_receiver, "
